@@ -5,7 +5,8 @@
 //! builds a FRESH Arc<ModelEvaluator> (cold: nothing has been evaluated on it) and releases `n` threads from a barrier; all of
 //! them make the same call first, then `k` calls in an order with mid barriers and yield_now injections derived from the seed;
 //! every result is compared with the sequential result of the same (invocable, input).  A watchdog reports a deadlock
-//! when the threads do not finish within `t` seconds (the process then exits: stuck threads cannot be joined).
+//! when NO call completes for `t` seconds (progress counter; a loaded machine is slow, not stuck); the process then exits:
+//! stuck threads cannot be joined.
 //! After the threads a final single-threaded pass over all calls detects a poisoned lock.
 //! Answer: {"calls": total, "mismatches": [...], "deadlock": bool, "panics": n, "final_ok": bool, "expected": [...]}
 use crate::canon::canon;
@@ -84,15 +85,27 @@ fn one(req: &J) -> J {
       let _ = etx.send(out);
     });
   }
-  let expected: Arc<Vec<String>> = match erx.recv_timeout(Duration::from_secs(timeout_s)) {
-    Ok(v) => Arc::new(v),
-    Err(_) => {
-      let ix = progress.load(Ordering::SeqCst).min(calls.len() - 1);
-      let r = json!({"deadlock": true, "phase": "sequential", "calls": ix, "threads": 1, "finished_threads": 0, "mismatches": [],
-                     "hanging_call": {"call_index": ix, "invocable": calls[ix].0, "input": calls[ix].1}});
-      println!("{}", r);
-      std::io::stdout().flush().unwrap();
-      std::process::exit(0);
+  // a hang is "no call completed for timeout_s seconds", not "not finished after timeout_s": a loaded machine is slow, not stuck
+  let expected: Arc<Vec<String>> = {
+    let mut last = (progress.load(Ordering::SeqCst), std::time::Instant::now());
+    loop {
+      match erx.recv_timeout(Duration::from_millis(500)) {
+        Ok(v) => break Arc::new(v),
+        Err(mpsc::RecvTimeoutError::Timeout) => {
+          let now = progress.load(Ordering::SeqCst);
+          if now != last.0 {
+            last = (now, std::time::Instant::now());
+          } else if last.1.elapsed() > Duration::from_secs(timeout_s) {
+            let ix = now.min(calls.len() - 1);
+            let r = json!({"deadlock": true, "phase": "sequential", "calls": ix, "threads": 1, "finished_threads": 0, "mismatches": [],
+                           "hanging_call": {"call_index": ix, "invocable": calls[ix].0, "input": calls[ix].1}});
+            println!("{}", r);
+            std::io::stdout().flush().unwrap();
+            std::process::exit(0);
+          }
+        }
+        Err(mpsc::RecvTimeoutError::Disconnected) => return json!({"err": "reference thread died"}),
+      }
     }
   };
   if req["show"].as_bool().unwrap_or(false) {
@@ -102,7 +115,6 @@ fn one(req: &J) -> J {
   let mut mismatches: Vec<J> = vec![];
   let mut final_bad: Vec<J> = vec![];
   let mut panics = 0usize;
-  let deadline = std::time::Instant::now() + Duration::from_secs(timeout_s);
   for trial in 0..trials {
     // a FRESH evaluator for every trial: the first evaluations of every invocable race on a cold evaluator
     let me: Arc<ModelEvaluator> = match ModelEvaluator::new(&defs) {
@@ -178,17 +190,26 @@ fn one(req: &J) -> J {
     }
     drop(tx);
     let mut finished = 0usize;
+    let mut last = (done.load(Ordering::Relaxed), std::time::Instant::now());
     while finished < threads {
-      let left = deadline.saturating_duration_since(std::time::Instant::now());
-      match rx.recv_timeout(left) {
+      match rx.recv_timeout(Duration::from_millis(500)) {
         Ok((_t, bad, p)) => {
           finished += 1;
           panics += p;
           if mismatches.len() < 8 {
             mismatches.extend(bad);
           }
+          last.1 = std::time::Instant::now();
         }
-        Err(_) => break,
+        Err(mpsc::RecvTimeoutError::Timeout) => {
+          let now = done.load(Ordering::Relaxed);
+          if now != last.0 {
+            last = (now, std::time::Instant::now());
+          } else if last.1.elapsed() > Duration::from_secs(timeout_s) {
+            break; // no call has completed for timeout_s seconds
+          }
+        }
+        Err(mpsc::RecvTimeoutError::Disconnected) => break,
       }
     }
     if finished < threads {
